@@ -117,9 +117,29 @@ def r2_arrival(L, repo):
              lit_fmt({want}), lit_fmt(lits), want in lits, node.line)
     L.floor("C03.R2", "message-returning paths of recv_tx_msg", nmsg, 1)
     ci, mh = repo.need_method("data_if", "DATAInterface", "match_hdr_ver")
+    # match_hdr_ver folded over the whole 4-bit x 4-bit domain (message version, negotiated version)
+    from consteval import Ev, Unknown, Raised
+    P = params(mh)[1]
+    bad, folded = [], True
+    for cur in range(16):
+        for mv in range(16):
+            e = Ev(repo, ci.mod, env={"self._hdr_ver": cur, "%s.ver" % P: mv}, self_cls=ci)
+            try:
+                r = e.run_block(mh.body)
+            except (Unknown, Raised):
+                folded = False
+                break
+            got = bool(r[1]) if isinstance(r, tuple) else False
+            if got != (mv == cur):
+                bad.append({"message version": mv, "negotiated": cur, "match_hdr_ver": got})
+        if not folded:
+            break
+    if folded:
+        L.ob("C03.R2", F2, "DATAInterface.match_hdr_ver", "True exactly when msg.ver equals the negotiated version (folded over all 256 pairs)",
+             [], bad[:3], not bad, mh.lineno)
     cfg3 = CFG(mh)
     rets3, _ = returns(cfg3)
-    for node, val in rets3:
+    for node, val in ([] if folded else rets3):
         if isinstance(val, ast.Constant) and val.value is True:
             lits = guard_literals(cfg3, node)
             P = params(mh)[1]
@@ -381,9 +401,11 @@ def who_may_clear(L, repo, rule):
             if isinstance(f, ast.Attribute) and f.attr == "tx_queue_clear":
                 n_call += 1
                 qn = qualname(c)
+                from pyutil import owners
+                own = owners(m, c)
                 L.unit(m.rel)
                 L.ob(rule, m.rel, qn, "queued bursts are discarded only by the power-off handler: `%s`" % canon(c)[:50],
-                     "Transceiver.power_event_handler", qn, qn == "Transceiver.power_event_handler", c.lineno)
+                     "Transceiver.power_event_handler", sorted(own), own <= {"Transceiver.power_event_handler"}, c.lineno)
     L.floor(rule, "tx_queue_clear call sites in the toolkit", n_call, 1)
 
 
